@@ -15,6 +15,7 @@ claimed = {
  "C15": ("sched-dfs", SCHED + "; invariant evaluated at every decision point", "N simultaneous real handshakes (client Transport.Handshake against server dispatchConnection, in-memory and bbolt user stores) for sets of (user, session id) pairs with caps 0..2 and a concurrent closure of a non-last session; oracle: same pair => same key and one session, different pairs => different keys, live sessions <= cap at every decision point, admissions = min(cap, distinct ids)", "2-3 connections, 1-2 users; handshake cryptography runs atomically between scheduling points; credit/expiry histories are covered by C16/C18 drivers"),
  "C16": ("sched-dfs", SCHED + "; the harness network's tap is the ground truth for volume", "traffic threads on 1-2 sessions of 1-2 limited users, usage-upload rounds, session closure, admin top-up/delete/expire in any overlap (in-memory and bbolt stores); oracle: deduction <= tapped volume at quiescence, equality after a final round while the user stayed active, upload<->up and download<->down, exhausted/expired/deleted users' sessions closed", "one upload round at a time (overlapping rounds belong to C17); rates high enough not to wait"),
  "C20": ("enum", ENUM, "all 2^9 presence subsets of the optional keys with the mandatory ones present (all 2^18 subsets of all keys in thorough), every mandatory key missing singly and in pairs, one-at-a-time value classes for every key under both transports, each case rendered as JSON file and as option string (base64 '=' written as '\\='); oracle: ParseConfig+ProcessRawConfig equal a table transcribed from README.md in both syntaxes, errors instead of panics; the dialer line in cmd/ck-client is checked textually", "documented meaning and defaults only; the table is my transcription of README.md"),
+ "C18": ("bfs", "explicit-state BFS whose transitions are HTTP requests served by the real APIRouter on a real bbolt file (state = copy of the database file), compared with a reference map", "BFS to depth 2 over the full alphabet (2 UIDs x {POST with each of the 64 field subsets, single-field POSTs with 0/-1/1/min/max, UID mismatch, malformed JSON, out-of-range SessionsCap, GET, DELETE} + LIST + REOPEN; 162 operations) and to depth 4 over a reduced alphabet in thorough; after every transition the whole store is read back through the API (and again after close/reopen) and compared with the reference, and for every stored user ListAllUsers, GetUserInfo, AuthenticateUser, AuthoriseNewSession, UploadStatus and userPanel.GetUser (the owner connecting) are run under recover", "never-set fields are expected to read as 0; the admin gate itself (admin UID and session id 0) is exercised in C07"),
  "C19": ("sched-dfs", SCHED + " on a virtual clock (token buckets of the vendored, instrumented juju/ratelimit run on virtual time)", "all interleavings (to the bound) of 1-3 senders with their own session/connection/stream sharing one LimitedValve, rates 1000/4096/1e6 B/s, both directions; oracle on the virtual clock: for every pair of instants the bytes passed stay within 1.01*rate*dt + rate, every byte crossing the network is metered, a backlogged sender finishes in N/(0.99 rate) + one message; plus: all sessions of a user share that user's one valve", "messages no larger than one second's worth of rate; time advances only at quiescence (discrete-event semantics)"),
  "C17": ("sched-dfs", SCHED, "every 2-thread pair and the 3-/4-thread combinations of {connection admission, session closure, user termination, usage-upload round, second upload round} on the real userPanel/ActiveUser, unbounded for pairs, bounded for more; oracle: no deadlock, every live session handed out is owned by the single record the panel knows", "in-memory UserManager (the property is about the panel's locks); 1-2 users, 1-2 sessions"),
  "C13": ("sched-dfs", SCHED + " with memory points before unsynchronised field writes; sender-side wire tap decoded by an independent reference codec", "all schedules (to the bound) of concurrent Write / ReadFrom / Close on one stream plus a second stream and a failing connection; oracle: unique (stream,seq), gap-free numbering, order-preserving contiguous writes, close numbered after completed writes", "ReadFrom calls that overlap Close are not judged (the property speaks of completed writes)"),
